@@ -118,7 +118,7 @@ PROPS['C11'] = dict(
              trusted=['abstract kernels: fft_ref -> identity, reim_from_znx_i64_ref -> bit-cast, fill_fft4/ifft4_omegas -> no-op (two-run determinism and frame only)'])],
     trusted_base=VERUS_TRUST + CORE_TRUST,
     assumptions=['operands are distinct objects from the result (Rust borrow rules: &mut res vs &a)'],
-    remainder='idft_apply*, svp_*, vmp_prepare and the ntt120 vmp (fft64 vmp_apply_dft_to_dft_core is under contract: every output limb defined from the inputs, rest zero), cnv_*, NTT120 big accumulator, cross-radix normalisation, shifts, core-layer operations',
+    remainder='idft_apply*, svp_prepare / svp_apply_dft and the ntt120 svp (fft64 svp_apply_dft_to_dft / _assign are under contract), vmp_prepare and the ntt120 vmp (fft64 vmp_apply_dft_to_dft_core is under contract: every output limb defined from the inputs, rest zero), cnv_*, NTT120 big accumulator, cross-radix normalisation, shifts, core-layer operations',
 )
 
 PROPS['C08'] = dict(
